@@ -70,6 +70,15 @@ impl Hook for Sched {
     }
 }
 
+/// Runs `f` with the calling thread temporarily unregistered (its shared-memory operations are
+/// neither scheduled nor logged): used by the observer.
+pub fn unregistered<R>(f: impl FnOnce() -> R) -> R {
+    let old = WID.with(|w| w.replace(None));
+    let r = f();
+    WID.with(|w| w.set(old));
+    r
+}
+
 pub type Job = Box<dyn FnOnce() + Send>;
 
 /// Decides which of the runnable workers performs the next operation.
